@@ -1040,6 +1040,14 @@ def sums(ctx):
                 else:
                     mv = _resimp(ca, ('uf', 'unwrap', ('uf', 'unwrap', rec.result)))
                     prove(ctx, R, fn + '|term', ca, 'eq', T(c), T(mv) * T(cnt), assume=A, where=ctx.where(cb), note='per vehicle type: mass() × number of cars of that type')
+    # ------------------------------------------------ one vehicle: empty mass + freight
+    for fn in ('<RailVehicle as Mass>::mass', '<RailVehicle as Mass>::derived_mass'):
+        b = ctx.anchor(R, fn)
+        an = analysis_or_fail(ctx, R, b) if b is not None else None
+        if an is not None:
+            r = an.ret()
+            ok = r[0] == 'ok' and r[1][0] == 'some' and r[1][1][0] == 'add' and sorted(map(repr, r[1][1][1:])) == sorted(map(repr, [pre('mass_static_base'), pre('mass_freight')]))
+            ctx.check(ok, R, fn, 'vehicle mass = empty (static base) mass + freight mass', 'returns %s' % show(r, an.names)[:160], ctx.where(b))
     # ------------------------------------------------ train static mass = towed mass + consist mass
     fn = 'TrainSimBuilder::make_train_sim_parts'
     b = ctx.anchor(R, fn)
